@@ -20,7 +20,11 @@
 (*   CentralDiffLaw  J column = (F(x+e) - F(x-e))/2  (exact for formulas   *)
 (*                   of degree <= 2 in every single coordinate)            *)
 (*   QuotientLaw     EQ/Balance d/d rhs against the quotient rule          *)
-(*   MuxLaw          the Mux index map is a bijection                      *)
+(*   MuxLaw          the Mux index map is a bijection onto the output whose   *)
+(*                   shape has the new axis at the (normalised) position;  *)
+(*                   closed-form map = multi-index map                     *)
+(*   AddSubLaw       every term is counted: the coefficients of the inputs *)
+(*                   add up to the sum of the factors (repeated names)     *)
 (*   CrossLaw        c.a = c.b = 0, skew-symmetry of the blocks            *)
 (*   PolarLaw        a.b = (|a+b|^2 - |a-b|^2)/4                           *)
 (*   MagLaw          mag^2 = sum x^2, J.x = mag, sum J^2 = f^2             *)
@@ -60,7 +64,14 @@ XR(s) == [i \in 1..Len(s.x) |-> [q \in 1..Len(s.x[i]) |-> R(s.x[i][q])]]
 V(s, xr, i, q) == Mul(s.f[i], xr[i][q])          \* value the component sees
 
 \* --- AddSubtractComp -------------------------------------------------------------------------------
-ASsf(o, e, i) == IF e = 1 THEN o.sf[i] ELSE o.sf[o.nin + 1 - i]     \* the second equation uses the reversed factors
+\* An equation is a list of TERMS: term t adds  sf[t] * (input map[t]);  map = <<1, .., nin>> when every name is
+\* given once, e.g. <<1, 2, 1>> for input_names ['a1', 'a2', 'a1'] (a repeated name is counted once per occurrence:
+\* the component accepts it and says so in a warning).  The second equation lists the names in reverse order with
+\* the same factor list.
+ASnt(o) == Len(o.sf)
+ASin(o, e, t) == IF e = 1 THEN o.map[t] ELSE o.map[ASnt(o) + 1 - t]          \* the input term t of equation e refers to
+\* coefficient of input i in equation e: the factors of all its occurrences
+ASco(o, e, i) == SumI([t \in 1..ASnt(o) |-> IF ASin(o, e, t) = i THEN o.sf[t] ELSE 0], ASnt(o))
 ASn(o) == o.vec * o.len
 YAddSub(s, xr) ==
     LET o == s.o
@@ -68,25 +79,43 @@ YAddSub(s, xr) ==
     IN [r \in 1..(IF o.two THEN 2 * n ELSE n) |->
           LET e == IF r <= n THEN 1 ELSE 2
               p == IF r <= n THEN r ELSE r - n
-          IN SumN([i \in 1..o.nin |-> Mul(R(ASsf(o, e, i)), V(s, xr, i, p))], o.nin)]
+          IN SumN([t \in 1..ASnt(o) |-> Mul(R(o.sf[t]), V(s, xr, ASin(o, e, t), p))], ASnt(o))]       \* term by term
 JAddSub(s, r, i, q) ==
     LET o == s.o
         n == ASn(o)
         e == IF r <= n THEN 1 ELSE 2
         p == IF r <= n THEN r ELSE r - n
-    IN IF p = q THEN Mul(R(ASsf(o, e, i)), s.f[i]) ELSE Zero
+    IN IF p = q THEN Mul(R(ASco(o, e, i)), s.f[i]) ELSE Zero
 
 \* --- MuxComp: np.stack(inputs, axis) as a map (input i, flat position q) -> flat output position -------
+\* a negative axis counts from the end of the OUTPUT's dimensions (numpy): -1 = last axis of the result
+MuxAx(o) == IF o.axis < 0 THEN o.axis + Len(o.shp) + 1 ELSE o.axis
+\* shape of the output: the n inputs are stacked along a new axis at position MuxAx
+MuxOutShape(o) == LET a == MuxAx(o)
+                  IN [k \in 1..Len(o.shp) + 1 |-> IF k <= a THEN o.shp[k] ELSE IF k = a + 1 THEN o.n ELSE o.shp[k - 1]]
 MuxSize(o) == ProdI(o.shp)
 MuxPos(o, i, q) ==
-    IF Len(o.shp) = 1
-    THEN (IF o.axis = 0 THEN (i - 1) * o.shp[1] + q ELSE (q - 1) * o.n + i)
-    ELSE LET s2 == o.shp[2]
-             j == (q - 1) \div s2
-             k == (q - 1) % s2
-         IN CASE o.axis = 0 -> (i - 1) * MuxSize(o) + q
-              [] o.axis = 1 -> (j * o.n + (i - 1)) * s2 + k + 1
-              [] o.axis = 2 -> (j * s2 + k) * o.n + i
+    LET ax == MuxAx(o)
+    IN IF Len(o.shp) = 1
+       THEN (IF ax = 0 THEN (i - 1) * o.shp[1] + q ELSE (q - 1) * o.n + i)
+       ELSE LET s2 == o.shp[2]
+                j == (q - 1) \div s2
+                k == (q - 1) % s2
+            IN CASE ax = 0 -> (i - 1) * MuxSize(o) + q
+                 [] ax = 1 -> (j * o.n + (i - 1)) * s2 + k + 1
+                 [] ax = 2 -> (j * s2 + k) * o.n + i
+\* the same map from the multi-indices: the output index is the input's index with (i - 1) inserted at MuxAx
+RECURSIVE FlatIx(_, _)          \* C-order flat position (0-based) of a 0-based multi-index in a shape
+FlatIx(shape, ix) == IF Len(shape) = 0 THEN 0
+                     ELSE FlatIx(SubSeq(shape, 1, Len(shape) - 1), SubSeq(ix, 1, Len(ix) - 1)) * shape[Len(shape)] + ix[Len(ix)]
+RECURSIVE Unflat(_, _)
+Unflat(shape, p) == IF Len(shape) = 0 THEN <<>>
+                    ELSE Append(Unflat(SubSeq(shape, 1, Len(shape) - 1), p \div shape[Len(shape)]), p % shape[Len(shape)])
+MuxPosNd(o, i, q) ==
+    LET a == MuxAx(o)
+        ix == Unflat(o.shp, q - 1)
+        ox == [k \in 1..Len(o.shp) + 1 |-> IF k <= a THEN ix[k] ELSE IF k = a + 1 THEN i - 1 ELSE ix[k - 1]]
+    IN FlatIx(MuxOutShape(o), ox) + 1
 MuxDom(o) == (1..o.n) \X (1..MuxSize(o))
 YMux(s, xr) ==
     LET o == s.o
@@ -94,7 +123,9 @@ YMux(s, xr) ==
           LET iq == CHOOSE a \in MuxDom(o) : MuxPos(o, a[1], a[2]) = p IN V(s, xr, iq[1], iq[2])]
 JMux(s, r, i, q) == IF MuxPos(s.o, i, q) = r THEN s.f[i] ELSE Zero
 MuxBijection(o) ==
+    /\ MuxAx(o) \in 0..Len(o.shp) /\ ProdI(MuxOutShape(o)) = o.n * MuxSize(o)
     /\ \A a \in MuxDom(o) : MuxPos(o, a[1], a[2]) \in 1..o.n * MuxSize(o)
+    /\ \A a \in MuxDom(o) : MuxPos(o, a[1], a[2]) = MuxPosNd(o, a[1], a[2])
     /\ \A a, b \in MuxDom(o) : MuxPos(o, a[1], a[2]) = MuxPos(o, b[1], b[2]) => a = b
 
 \* --- DotProductComp / CrossProductComp (same = TRUE: one input is used for both operands) ----------------
@@ -304,6 +335,7 @@ InOf(s, c) == CHOOSE i \in 1..NIn(s) : Off(s, i) < c /\ c <= Off(s, i) + Len(s.x
 Jac(s, ny) == [r \in 1..ny |-> [c \in 1..NC(s) |-> LET i == InOf(s, c) IN JE(s, r, i, c - Off(s, i))]]
 Out(s) == LET y == Y(s, XR(s))
           IN IF s.kind = "linsys" THEN [y |-> y, J |-> Jac(s, Len(y)), P |-> PLinSys(s)]
+             ELSE IF s.kind = "mux" THEN [y |-> y, J |-> Jac(s, Len(y)), sh |-> MuxOutShape(s.o)]
              ELSE [y |-> y, J |-> Jac(s, Len(y))]
 
 \* --- scenario enumeration ----------------------------------------------------------------------------
@@ -311,6 +343,9 @@ Vecs == 1..MaxVec
 UCfgs == {"none", "km", "m"}
 SFs == {-2, 1, 3}
 B(k, o, u) == [kind |-> k, o |-> o, ucfg |-> u, sd |-> 0, x |-> <<>>, f |-> <<>>]
+\* AddSubtractComp with a name given more than once: <<number of distinct inputs, term -> input, factors>>
+DupCfgs == {<<2, <<1, 2, 1>>, <<1, -2, 3>>>>, <<2, <<1, 2, 1>>, <<3, 1, 1>>>>, <<2, <<1, 1, 2>>, <<-2, 3, 1>>>>,
+            <<2, <<2, 1, 1>>, <<1, 3, 3>>>>, <<1, <<1, 1>>, <<1, 3>>>>, <<1, <<1, 1>>, <<-2, 1>>>>}
 MultCfgs == {<<FALSE, "none", 1>>, <<TRUE, "ivc", 3>>, <<TRUE, "default", -2>>, <<TRUE, "default", 3>>}
 EqShapes == {<<1>>, <<3>>, <<2, 2>>}
 SpGrids == {<<-3, -1, 0, 2, 4>>, <<1, 2, 3, 4, 6>>, <<-4, -3, -2, 0, 1>>}
@@ -322,11 +357,13 @@ SpXi(g) == LET n == Len(g)
            IN SortedSeq({4 * g[j] : j \in 1..n - 1} \cup {2 * (g[j] + g[j + 1]) : j \in 1..n - 1}
                         \cup {3 * g[1] + g[2], g[n - 1] + 3 * g[n]})
 BaseOf(k) ==
-    CASE k = "addsub" -> {B(k, [nin |-> Len(sf), sf |-> sf, vec |-> v, len |-> l, two |-> tw], u) :
+    CASE k = "addsub" -> {B(k, [nin |-> Len(sf), sf |-> sf, map |-> [t \in 1..Len(sf) |-> t], vec |-> v, len |-> l, two |-> tw], u) :
                              sf \in (SFs \X SFs) \cup (SFs \X SFs \X SFs), v \in Vecs, l \in 1..2, tw \in BOOLEAN, u \in UCfgs}
+                         \cup {B(k, [nin |-> dc[1], sf |-> dc[3], map |-> dc[2], vec |-> v, len |-> l, two |-> tw], u) :
+                                  dc \in DupCfgs, v \in Vecs, l \in 1..2, tw \in BOOLEAN, u \in UCfgs}
       [] k = "mux" -> {B(k, [n |-> v, shp |-> sa[1], axis |-> sa[2]], u) :
                           v \in Vecs, u \in UCfgs,
-                          sa \in ({<<1>>, <<2>>, <<3>>} \X {0, 1}) \cup ({<<2, 2>>, <<2, 3>>} \X {0, 1, 2})}
+                          sa \in ({<<1>>, <<2>>, <<3>>} \X {0, 1, -1, -2}) \cup ({<<2, 2>>, <<2, 3>>} \X {0, 1, 2, -1, -2, -3})}
       [] k = "dot" -> {B(k, [vec |-> v, len |-> l, same |-> sm], u) : v \in Vecs, l \in 1..3, sm \in BOOLEAN, u \in UCfgs}
       [] k = "cross" -> {B(k, [vec |-> v, same |-> sm], u) : v \in Vecs, sm \in BOOLEAN, u \in UCfgs}
       [] k = "matvec" -> {B(k, [vec |-> v, nr |-> sh[1], nc |-> sh[2]], u) :
@@ -416,6 +453,13 @@ QuotientLaw ==
     (stage = 1 /\ scen.kind \in {"eq", "balance"}) =>
       \A p \in 1..scen.o.n : out.J[p][Off(scen, 2) + p] = QuotRhs(scen, p)
 MuxLaw == (stage = 1 /\ scen.kind = "mux") => MuxBijection(scen.o)
+AddSubLaw ==
+    (stage = 1 /\ scen.kind = "addsub") =>
+      LET o == scen.o IN
+      /\ \A t \in 1..ASnt(o) : o.map[t] \in 1..o.nin
+      /\ \A i \in 1..o.nin : \E t \in 1..ASnt(o) : o.map[t] = i
+      /\ \A e \in (IF o.two THEN {1, 2} ELSE {1}) :
+            SumI([i \in 1..o.nin |-> ASco(o, e, i)], o.nin) = SumI(o.sf, ASnt(o))
 CrossLaw ==
     (stage = 1 /\ scen.kind = "cross") =>
       \A n \in 1..scen.o.vec :
